@@ -666,6 +666,12 @@ def corpus_dw():
         dict(DW_BASE, mb=True, boundary=False, a=[0.5, -3.0], b=[2.0, 6.0], version=6, rebalancing=True, steps=4, seed=5),
         dict(DW_BASE, mb=True, boundary=False, dim=3, a=[0.0, -1.0, 2.0], b=[1.0, 1.0, 2.25], version=2, steps=3, seed=6),
     ]
+    # exemplar of C04-dw-version-6-8-3d (= C04_dw_version6_8_3d_refuted): d=3, lmin 1, lmax 4, last interval of every dimension, then of
+    # dimensions 1 and 2 again: versions 6 and 8 lose the hat (2,2,2)/(1,1,1), version 7 keeps it
+    l16, l17, z17 = [[0, 1]] * 15 + [[1, 1]], [[0, 1]] * 16 + [[1, 1]], [[0, 1]] * 17
+    for version in (6, 8, 7):
+        out.append(dict(DW_BASE, dim=3, lmin=1, lmax=4, version=version, boundary=False, a=[0.0] * 3, b=[1.0] * 3, npts=1,
+                        bens=[[l16, l16, l16], [z17, l17, l17]]))
     # strongly graded trees without rebalancing (large coarsening values: where the subtraction loops of 6/7/8 matter)
     for dim, version, nst, bd in [(2, 6, 4, True), (2, 7, 4, False), (2, 8, 4, True), (3, 6, 3, True), (3, 7, 3, False), (3, 8, 3, True)]:
         bens = [[[[1, 1]] + [[0, 1]] * (3 + k) for _ in range(dim)] for k in range(nst)]
@@ -826,7 +832,7 @@ def check_dw(chk, cases, verbose=False):
             elif loss is not None:
                 step = loss['step']
                 kind = 'dw-linear-lost' if c.get('mb') else 'dw-initial-hat-lost'
-                sig = dict(version=c['version'], rotation_occurred=rotated(step), observable=loss['observable'])
+                sig = dict(version=c['version'], rotation_occurred=rotated(step), observable=loss['observable'], dim_ge_3=c['dim'] >= 3)
                 chk.violation('oracle:C04/dw-' + loss['observable'], kind, sig, fixed(k, step),
                               dict(loss, run_on_object=k, rebalancing=c['rebalancing'], corr=str(diff)[:300]), failing_input=True)
                 chk.count('dw:histories-losing-exactness')
@@ -930,13 +936,29 @@ def gen_companion(rng, primary='dw'):
     return c
 
 
+def extra_exps(dim):
+    """non-multilinear monomials carried by the cell strategy next to the multilinear ones (model: exact rational surpluses)"""
+    out = [[2] + [0] * (dim - 1), [0] * (dim - 1) + [2]]
+    if dim >= 2:
+        out += [[2, 1] + [0] * (dim - 2), [1] * (dim - 1) + [2]]
+    uniq = []
+    for e in out:
+        if e not in uniq:
+            uniq.append(e)
+    return uniq
+
+
+def all_exps(case):
+    return multilinear_exps(case['dim']) + (extra_exps(case['dim']) if case['strategy'] == 'cell' else [])
+
+
 def _make_ml_function(case):
     """component 0: the Genz function of C07 (drives automatic_extend_split); then 2^amp * x^e for every e in {0,1}^d"""
     import numpy as np
     from sparseSpACE.Function import Function
     from . import c07
     f0 = c07._make_function(case)
-    exps = multilinear_exps(case['dim'])
+    exps = all_exps(case)
     E = np.array(exps, dtype=float)
     amp = 2.0 ** case.get('amp', 0)
 
@@ -947,7 +969,7 @@ def _make_ml_function(case):
         def eval(self, coordinates):
             x = np.asarray(coordinates, dtype=float)
             v0 = np.asarray(f0.eval(tuple(float(t) for t in coordinates)), dtype=float).ravel()[0]
-            return np.concatenate(([v0], amp * np.prod(np.where(E == 1.0, x[None, :], 1.0), axis=1)))
+            return np.concatenate(([v0], amp * np.prod(x[None, :] ** E, axis=1)))
     return VecF()
 
 
@@ -1018,6 +1040,8 @@ def steps_es(case):
         else:
             st['ncells'] = len(objs)
             st['nactive'] = sum(1 for o in objs if o.active)
+            st['cells'] = [[[sx.rat(x) for x in o.start], [sx.rat(x) for x in o.end], [int(x) for x in o.levelvec], bool(o.active)] for o in objs]
+            st['dict_size'] = len(s.cell_dict)
         if case.get('sentinel') and isinstance(res[3], np.ndarray) and res[3].flags.writeable:
             res[3][...] = SENTINEL                                  # (c) the returned result array is overwritten
             now = normalised(op.get_result())
@@ -1053,7 +1077,7 @@ def steps_es(case):
             return s.continue_adaptive_refinement(tol=-1, max_evaluations=1, min_evaluations=0)
         return s.continue_adaptive_refinement(tol=-1, max_evaluations=1)
 
-    states, abort = [], None
+    states, abort, rounds = [], None, []
     try:
         res = s.performSpatiallyAdaptiv(case['lmin'], case['lmax'], ec, tol=-1, max_evaluations=1, do_plot=False, print_output=False)
         check_args('performSpatiallyAdaptiv')
@@ -1066,7 +1090,11 @@ def steps_es(case):
                 run_observers(obs[k - 1], k - 1)
                 yield
             tr['step'] = k
+            act0 = [bool(getattr(o, 'active', True)) for o in s.refinement.get_objects()] if case['strategy'] == 'cell' else []
             s.refine()
+            if case['strategy'] == 'cell':      # the container positions refined in this round (input of the model)
+                objs_now = s.refinement.get_objects()
+                rounds.append([i for i, was in enumerate(act0) if was and not objs_now[i].active])
             check_args('step %d: refine' % k)
             yield
             res = cont(cm[k - 1] if k - 1 < len(cm) else 'a')
@@ -1081,7 +1109,7 @@ def steps_es(case):
                 where = '%s:%d' % (fr.filename.rsplit('/', 1)[-1], fr.lineno)
                 break
         abort = (type(e).__name__, where, str(e)[:200], tr['step'])
-    return dict(states=states, abort=abort, mutated=mutated, aliasing=aliasing, observer_notes=observer_notes, argmode=argmode)
+    return dict(states=states, abort=abort, mutated=mutated, aliasing=aliasing, observer_notes=observer_notes, argmode=argmode, rounds=rounds)
 
 
 def impl_es(case):
@@ -1114,6 +1142,19 @@ def check_es(chk, cases, verbose=False):
                 ck_idx.append((i, k))
                 ck_cases.append((2, [a, b, s_['areas']]))
     ck = dict(zip(ck_idx, run_model(PROP, ck_cases, nproc=16)))
+    cell_idx = [i for i, (st, r) in enumerate(impl) if st == 'ok' and cases[i]['strategy'] == 'cell' and r['states']]
+    cell_model = dict(zip(cell_idx, run_model(PROP, [(4, [cases[i]['dim'], cases[i]['lmin'], [Fraction(x) for x in cases[i]['a']],
+                                                          [Fraction(x) for x in cases[i]['b']],
+                                                          impl[i][1]['rounds'][:len(impl[i][1]['states']) - 1], all_exps(cases[i])])
+                                                     for i in cell_idx], nproc=16)))
+    # verified checker cell_init_okb (hypothesis of C04_cell_multilinear_exact) for every distinct initial configuration of the cell strategy
+    cfgs = sorted(set((cases[i]['dim'], cases[i]['lmin'], tuple(cases[i]['a']), tuple(cases[i]['b'])) for i in cell_idx))
+    for cfg, ok in zip(cfgs, run_model(PROP, [(5, [d, l, [Fraction(x) for x in a_], [Fraction(x) for x in b_]]) for d, l, a_, b_ in cfgs], nproc=16)):
+        chk.count('checker:cell_init_okb evaluations')
+        if ok != 1:
+            chk.violation('checker:cell_init_okb', 'cell-init-checker-rejects', {}, dict(strategy='cell', dim=cfg[0], lmin=cfg[1], lmax=cfg[1], a=list(cfg[2]),
+                                                                                        b=list(cfg[3]), steps=0, fn=0, seed=1),
+                          dict(checker=str(ok)), failing_input=False)
     keys, samples = [], []
     rc = 0
     for i, c in enumerate(cases):
@@ -1143,7 +1184,7 @@ def check_es(chk, cases, verbose=False):
         exps = multilinear_exps(c['dim'])
         exact = [moment(a, b, e) for e in exps]
         scale = []
-        for e in exps:                       # natural scale of the moment: prod_d max|x_d|^e_d * (b_d - a_d)
+        for e in all_exps(c):                # natural scale of the moment: prod_d max|x_d|^e_d * (b_d - a_d)
             v = Fraction(1)
             for ad, bd, k in zip(a, b, e):
                 v *= (max(abs(ad), abs(bd)) ** k) * (bd - ad)
@@ -1190,6 +1231,38 @@ def check_es(chk, cases, verbose=False):
                         rc = 1
             if verbose:
                 print(line)
+        if strat == 'cell':
+            # correspondence with Model/CellScheme.v: container cells (box, level vector, active flag), size of cell_dict, and the integral of
+            # every monomial (also the non-multilinear ones, whose hierarchical surpluses do not vanish)
+            m = cell_model.get(i)
+            xe = all_exps(c)
+            cd = None
+            if m is None or sx.is_err(m) or isinstance(m, tuple) or len(m) != len(r['states']):
+                cd = dict(step=0, observable='model-error', model=str(m)[:200])
+            else:
+                for k, (ms, s_) in enumerate(zip(m, r['states'])):
+                    mcells = [[[sx.q(x) for x in cl[0]], [sx.q(x) for x in cl[1]], cl[2], bool(cl[3])] if not sx.is_err(cl) else 'ERR' for cl in ms[0]]
+                    if mcells != s_['cells']:
+                        cd = dict(step=k, observable='cells', impl=str([x for x in s_['cells'] if x not in mcells][:3])[:300],
+                                  model=str([x for x in mcells if x not in s_['cells']][:3])[:300], n_impl=len(s_['cells']), n_model=len(mcells))
+                        break
+                    if ms[1] != s_['dict_size']:
+                        cd = dict(step=k, observable='cell_dict size', impl=s_['dict_size'], model=ms[1])
+                        break
+                    integ = s_['integral'][1:]
+                    for n, mv in enumerate(ms[2]):
+                        if sx.is_err(mv) or not close(integ[n], sx.q(mv), scale[n]):
+                            cd = dict(step=k, observable='integral', exponent=xe[n], impl=integ[n], model=str(mv if sx.is_err(mv) else sx.q(mv)))
+                            break
+                    if cd:
+                        break
+                    chk.count('cell:model-states-compared')
+            if verbose:
+                print('  cell model vs implementation:', 'agree' if cd is None else 'DIFFER ' + str(cd))
+            if cd is not None:
+                chk.violation('corr:C04/cell-' + cd['observable'], 'cell-model-differs', dict(observable=cd['observable']),
+                              dict(c, steps=cd['step']), cd, failing_input=False)
+                rc = 1
         nst = len(r['states'])
         if nst >= 3 and (strat == 'cell' or len(r['states'][-1]['areas']) > len(r['states'][0]['areas'])):
             keys.append((strat, c['dim'], c.get('version'), c.get('nrbe'), c.get('auto'), c.get('single'), c['lmin'], c['lmax'], c['steps'],
